@@ -13,6 +13,9 @@ sub-checks
   ss_scale  the same map at lengths that straddle runtime thresholds (9..14, 31..36, 256..258;
             thorough also 63..66, 127..132, 255..260, 511..514) on decreasing sequences with a block
             of j non-minima, j around the set-resize points 4/5, 18/19, 76/77
+  gens      E2: breadth-first search over histories of LIVE dihedral_group generators, dihedral()
+            calls, abandoned and complete enumerations (mc/explore.py), with read-back
+  fresh     list results of the helpers damaged in place, public answers asked again
   families  smooth, forest_like, baxter, simsun, dihedral, in_alternating_group,
             yt_perm_avoids_22/32, av_231_and_mesh, hard_mesh against definitions
   deep      independent second definitions that are too slow for the long lengths: Greene's theorem
@@ -557,6 +560,344 @@ def shard_deep(shard):
 
 
 # --------------------------------------------------------------------------------------------
+# gens (E2): histories of LIVE generators of dihedral_group and of calls of dihedral()
+# --------------------------------------------------------------------------------------------
+# dihedral_group(n) is the one generator-returning function of the property; dihedral(p) opens
+# such a generator internally and abandons it as soon as it has found p.  Operations:
+#   ("open", n)     g = dihedral_group(n)              (<= MAXOPEN per history, <= MAXLIVE alive)
+#   ("next", i)     next(g_i)
+#   ("drop", i)     g_i.close()                        (an abandoned enumeration)
+#   ("pred", n, k)  dihedral(Perm(pool[n][k]))         (members and a non-member of length n)
+#   ("full", n)     list(dihedral_group(n))            (a complete enumeration in between)
+# Oracle after every operation: every item a generator has yielded is a member of D_n (polygon
+# definition) it has not yielded before, StopIteration comes exactly after 2n items, predicate
+# answers equal the definition, a complete enumeration is D_n without repeats; read-back: every
+# live generator, drained at the end of the history, yields exactly the members it had not
+# yielded yet, and a fresh complete enumeration afterwards is again D_n.  (The ORDER of the
+# enumeration is not documented and not demanded.)
+# State = complete: per generator (length, alive/exhausted/dropped, items yielded so far), every
+# mutable container at module/class level of the two modules, the size of every lru_cache in
+# them, and the order of a fresh complete enumeration per length (this makes shared rotating
+# buffers visible).  Every replay starts from restored module containers and cleared caches.
+
+_GEN_MODULES = ["permuta.permutils.groups", "permuta.bisc.perm_properties"]
+_SNAP = {}
+
+
+def _containers():
+    """(module name, attribute path, object) of every mutable container bound at module or
+    class level in the modules of the generator functions."""
+    import sys
+    import collections
+    out = []
+    kinds = (list, dict, set, collections.deque)
+    for name in _GEN_MODULES:
+        mod = sys.modules.get(name)
+        if mod is None:
+            continue
+        for k, v in sorted(vars(mod).items()):
+            if k.startswith("__"):
+                continue
+            if isinstance(v, kinds):
+                out.append((name, k, v))
+            elif isinstance(v, type) and getattr(v, "__module__", None) == name:
+                for ck, cv in sorted(vars(v).items()):
+                    if isinstance(cv, kinds) and not ck.startswith("__"):
+                        out.append((name, v.__name__ + "." + ck, cv))
+    return out
+
+
+def _caches():
+    import sys
+    out = []
+    for name in _GEN_MODULES:
+        mod = sys.modules.get(name)
+        for k, v in sorted(vars(mod).items()) if mod else []:
+            if callable(getattr(v, "cache_clear", None)) and callable(getattr(v, "cache_info", None)):
+                out.append((name, k, v))
+    return out
+
+
+def _reset_hidden():
+    """Bring everything the generator functions could keep between calls back to the state at
+    import time: module/class level containers are restored in place, lru_caches are cleared."""
+    import copy
+    for name, k, v in _containers():
+        key = (name, k)
+        if key not in _SNAP:
+            _SNAP[key] = copy.deepcopy(v)
+            continue
+        snap = copy.deepcopy(_SNAP[key])
+        if isinstance(v, dict):
+            v.clear()
+            v.update(snap)
+        elif isinstance(v, set):
+            v.clear()
+            v.update(snap)
+        else:
+            v.clear()
+            v.extend(snap)
+    for _, _, f in _caches():
+        f.cache_clear()
+
+
+def _freeze(x):
+    import collections
+    if isinstance(x, dict):
+        return tuple(sorted((repr(k), _freeze(v)) for k, v in x.items()))
+    if isinstance(x, (list, tuple, collections.deque)):
+        return tuple(_freeze(v) for v in x)
+    if isinstance(x, (set, frozenset)):
+        return tuple(sorted(repr(_freeze(v)) for v in x))
+    if isinstance(x, (int, str, float, bool)) or x is None:
+        return x
+    return repr(x)
+
+
+class GenModel:
+    MAXOPEN = 4
+    MAXLIVE = 3
+
+    def __init__(self, lengths):
+        self.lengths = tuple(lengths)
+        self.group = {n: frozenset(p for p in R.perms(n) if D.dihedral_by_polygon(p))
+                      for n in self.lengths}
+        for n in self.lengths:
+            assert len(self.group[n]) == 2 * n
+        self.pool = {}
+        for n in self.lengths:
+            ident = tuple(range(n))
+            rot1 = tuple((i + 1) % n for i in range(n))
+            rotl = tuple((i + n - 1) % n for i in range(n))
+            refl = tuple((1 - i) % n for i in range(n))
+            pool = [ident, rot1, rotl, refl]
+            if n >= 4:
+                pool.append(ident[:-2] + (n - 1, n - 2))       # not a symmetry of the n-gon
+            self.pool[n] = pool
+        self.menu = ([("open", n) for n in self.lengths]
+                     + [("next", i) for i in range(self.MAXOPEN)]
+                     + [("drop", i) for i in range(self.MAXOPEN)]
+                     + [("pred", n, k) for n in self.lengths for k in range(len(self.pool[n]))]
+                     + [("full", n) for n in self.lengths])
+
+    def enabled(self, canon, hist):
+        slots = canon[0]
+        live = sum(1 for s in slots if s[1] == "live")
+        for op in self.menu:
+            if op[0] == "open" and (len(slots) >= self.MAXOPEN or live >= self.MAXLIVE):
+                continue
+            if op[0] in ("next", "drop") and (op[1] >= len(slots) or slots[op[1]][1] != "live"):
+                continue
+            yield op
+
+    def _enum_ok(self, n, items):
+        """items: a complete enumeration; None if it is D_n without repeats, else a description."""
+        its = [tuple(x) for x in items]
+        if len(its) != 2 * n or set(its) != self.group[n]:
+            return {"complete enumeration of length": n, "got": its,
+                    "missing": sorted(self.group[n] - set(its)),
+                    "repeated or foreign": sorted({x for x in its if its.count(x) > 1
+                                                   or x not in self.group[n]})}
+        return None
+
+    def build(self, hist):
+        Perm = _P()
+        from permuta.permutils.groups import dihedral_group
+        from permuta.bisc.perm_properties import dihedral
+        _reset_hidden()
+        gens = []      # [generator, n, status, items]
+        viols = []
+        last = len(hist) - 1
+        for hi, op in enumerate(hist):
+            op = tuple(op)
+            v = None
+            try:
+                if op[0] == "open":
+                    gens.append([dihedral_group(op[1]), op[1], "live", []])
+                elif op[0] == "next":
+                    g = gens[op[1]]
+                    n = g[1]
+                    try:
+                        item = _guarded_call(next, g[0])
+                        t = tuple(item)
+                        if not isinstance(item, Perm) or t not in self.group[n]:
+                            v = {"op": op, "yielded a non-member": repr(item)}
+                        elif t in g[3]:
+                            v = {"op": op, "yielded twice": list(t), "so far": g[3]}
+                        g[3].append(t)
+                    except StopIteration:
+                        if len(g[3]) != 2 * n:
+                            v = {"op": op, "stopped after": g[3],
+                                 "missing": sorted(self.group[n] - set(g[3]))}
+                        g[2] = "exhausted"
+                elif op[0] == "drop":
+                    gens[op[1]][0].close()
+                    gens[op[1]][2] = "dropped"
+                elif op[0] == "pred":
+                    p = self.pool[op[1]][op[2]]
+                    got = _guarded_call(dihedral, Perm(p))
+                    if got is not (p in self.group[op[1]]):
+                        v = {"op": op, "perm": list(p), "expected": p in self.group[op[1]],
+                             "got": repr(got)}
+                elif op[0] == "full":
+                    bad = self._enum_ok(op[1], _guarded_call(list, dihedral_group(op[1])))
+                    if bad:
+                        v = dict(bad, op=op)
+            except _Timeout:
+                v = {"op": op, "no answer within %g s of CPU time" % CALL_CPU_LIMIT: True}
+            except Exception as exc:  # noqa
+                v = {"op": op, "exception": repr(exc)}
+            if v is not None and hi == last:
+                viols.append(v)
+        slots = tuple((g[1], g[2], tuple(g[3])) for g in gens)
+        hidden = (tuple((nm, k, _freeze(c)) for nm, k, c in _containers()),
+                  tuple((nm, k, f.cache_info().currsize) for nm, k, f in _caches()))
+        # read-back (the objects of this replay are thrown away afterwards)
+        try:
+            for i, g in enumerate(gens):
+                if g[2] != "live":
+                    continue
+                rest = []
+                for item in g[0]:
+                    rest.append(tuple(item))
+                    if len(rest) > 2 * g[1] + 2:
+                        break
+                bad = self._enum_ok(g[1], g[3] + rest)
+                if bad:
+                    viols.append({"read-back": "generator %d drained at the end of the history" % i,
+                                  "yielded before": g[3], "yielded when drained": rest,
+                                  "missing": bad["missing"],
+                                  "repeated or foreign": bad["repeated or foreign"]})
+            probe = []
+            for n in self.lengths:
+                fresh = [tuple(x) for x in dihedral_group(n)]
+                probe.append(tuple(fresh))
+                bad = self._enum_ok(n, fresh)
+                if bad:
+                    viols.append(dict(bad, **{"read-back": "fresh complete enumeration at the end"}))
+        except Exception as exc:  # noqa
+            viols.append({"read-back": "exception", "exception": repr(exc)})
+            probe = ["exception"]
+        return (slots, hidden, tuple(probe)), viols
+
+
+def shard_gens(shard):
+    from ..explore import bfs
+    lengths, depth = shard
+    part = Partial()
+    model = GenModel(lengths)
+    n0 = lengths[0]
+    warm = [(), (("open", n0), ("next", 0)), (("pred", n0, 1),),
+            (("open", n0), ("next", 0), ("next", 0), ("next", 0))]
+
+    def on_violation(hist, v):
+        part.violation("gens", {"lengths": list(lengths), "history": [list(o) for o in hist]}, v)
+
+    st = bfs(warm, model.menu, model.build, depth, on_violation, enabled=model.enabled)
+    part.add(st.transitions, st.states)
+    part.bump("gens_states", st.states)
+    part.bump("gens_transitions", st.transitions)
+    if st.sample_histories:
+        part.sample({"sub": "gens", "lengths": list(lengths), "history": st.sample_histories[-1]}, cap=1)
+    return part, (st.states, st.transitions, st.depth_completed)
+
+
+# --------------------------------------------------------------------------------------------
+# fresh: results that are mutable containers are damaged in place, then everybody asks again
+# --------------------------------------------------------------------------------------------
+# The public entry points of the property return Perm / bool / int (immutable).  The helpers that
+# feed them return lists (Perm._stack_sort/_bubble_sort/_quick_sort: list; perm_properties.
+# _perm_to_yt: list of lists).  Nothing is demanded of the helpers themselves (they are skipped
+# if they do not exist); but after their result was damaged at every nesting level the PUBLIC
+# answers - on the same object, on a new equal object - must still be the reference answers.
+
+def _damage(x):
+    try:
+        for y in list(x):
+            if isinstance(y, (list, dict, set)):
+                _damage(y)
+        if isinstance(x, list):
+            x.reverse()
+            x.append(-7)
+            del x[:1]
+        elif isinstance(x, (dict, set)):
+            x.clear()
+    except Exception:  # noqa  (immutable result: nothing to damage)
+        pass
+
+
+def check_fresh(part, Perm, props, p, after=None):
+    p = tuple(p)
+    exp = ref_ops(p)
+    shape = D.rsk_shape(p)
+    expf = {"yt_perm_avoids_22": not D.shape_contains(shape, [2, 2]),
+            "yt_perm_avoids_32": not D.shape_contains(shape, [3, 2])}
+    P = Perm(p)
+    helpers = [("_stack_sort", ["stack_sort", "stack_sortable", "count_stack_sorts",
+                                "west_2_stack_sortable"]),
+               ("_bubble_sort", ["bubble_sort", "bubble_sortable"]),
+               ("_quick_sort", ["quick_sort", "quick_sortable"])]
+    for helper, publics in helpers:
+        fn = getattr(Perm, helper, None)
+        if fn is None:
+            continue
+        for arg in (list(p), list(P)):
+            try:
+                res = fn(arg)
+            except Exception:  # noqa  (helper with another signature: not ours to judge)
+                break
+            _damage(res)
+            _damage(arg)
+            for Q in (P, Perm(p)):
+                for name in publics:
+                    case = _case(p, after, op=name, damaged=helper)
+                    ok, got = _call(part, "fresh", case, getattr(Q, name))
+                    if not ok:
+                        continue
+                    e = exp[name]
+                    good = (isinstance(got, Perm) and tuple(got) == e) if isinstance(e, tuple) \
+                        else (got == e and isinstance(got, type(e)))
+                    if not good:
+                        part.violation("fresh", case, {"expected": e, "got": repr(got)})
+    fn = getattr(props, "_perm_to_yt", None)
+    if fn is not None:
+        for arg in (P, Perm(p)):
+            try:
+                res = fn(arg)
+            except Exception:  # noqa
+                break
+            _damage(res)
+            for Q in (P, Perm(p)):
+                for name in ("yt_perm_avoids_22", "yt_perm_avoids_32"):
+                    case = _case(p, after, family=name, damaged="_perm_to_yt")
+                    ok, got = _call(part, "fresh", case, getattr(props, name), Q)
+                    if ok and got is not expf[name]:
+                        part.violation("fresh", case, {"expected": expf[name], "got": repr(got)})
+    # the public results themselves: damage attempt on whatever comes back, ask again
+    for name in ("stack_sort", "pop_stack_sort", "bubble_sort", "quick_sort"):
+        case = _case(p, after, op=name, damaged="own result")
+        ok, got = _call(part, "fresh", case, getattr(P, name))
+        if ok:
+            _damage(got)
+            ok, got = _call(part, "fresh", case, getattr(P, name))
+            if ok:
+                _perm_result(part, "fresh", case, got, exp[name], Perm)
+
+
+def shard_fresh(shard):
+    n, pre = shard
+    Perm = _P()
+    from permuta.bisc import perm_properties as props
+    part = Partial()
+    prev = None
+    for p in _perms_slice(n, pre):
+        check_fresh(part, Perm, props, p, prev)
+        prev = p
+        part.add(1, 1 if n >= 3 and p != tuple(range(n)) else 0)
+    return part
+
+
+# --------------------------------------------------------------------------------------------
 
 def run(ctx, only=None):
     def want(name):
@@ -567,7 +908,7 @@ def run(ctx, only=None):
                 "on it (each permutation once per sub-check). non-trivial: ops - length>=3 and not "
                 "sorted by one stack pass; ss - the permutation is in the domain of at least one "
                 "direction and is moved by the map (same for ss_long); families - length>=3 and member of some but not "
-                "all of the ten families; deep - tableau has a second row of length>=2")
+                "all of the ten families; gens - distinct states of the history search; fresh - length>=3, not the identity; deep - tableau has a second row of length>=2")
     ctx.assumptions = [
         "reference definitions in mc/ref_c12.py; the quicksort operator is the one described in the "
         "comments of Perm._quick_sort (strong fixed points stay, blocks between them are partitioned "
@@ -666,6 +1007,27 @@ def run(ctx, only=None):
         ctx.section("ss_scale", evaluations=ctx.evals - e0,
                     members_by_length={str(n): sum(m for nn, m in res if nn == n)
                                        for n in sorted({nn for nn, _ in res})})
+    if want("gens"):
+        e0 = ctx.evals
+        depth = 6 if quick else 8
+        models = [(3,), (4,), (5,), (3, 4)] if quick else [(3,), (4,), (5,), (6,), (3, 4), (4, 5), (3, 5)]
+        res = ctx.pmap(shard_gens, [(m, depth) for m in models])
+        ctx.states = sum(r[0] for r in res)
+        ctx.transitions = sum(r[1] for r in res)
+        ctx.traces = ctx.transitions
+        ctx.bounds["gens"] = {"depth": depth, "length sets": models, "generators opened per history": GenModel.MAXOPEN,
+                              "alive at once": GenModel.MAXLIVE,
+                              "initial states": ["fresh", "one generator advanced once", "after a predicate call",
+                                                 "one generator advanced three times"]}
+        ctx.section("gens", states=ctx.states, transitions=ctx.transitions,
+                    per_model=[list(r) for r in res])
+    if want("fresh"):
+        e0 = ctx.evals
+        ctx.pmap(shard_fresh, shards_upto(6 if quick else 7, 720))
+        ctx.bounds["fresh"] = ("all permutations of length 0..%d: results of the list-returning helpers "
+                               "damaged in place, public answers asked again on the same and on an equal "
+                               "object" % (6 if quick else 7))
+        ctx.section("fresh", evaluations=ctx.evals - e0)
     if want("families"):
         e0 = ctx.evals
         res = ctx.pmap(shard_families, shards_upto(n_fam, 630 if quick else 1260))
@@ -702,6 +1064,15 @@ def replay(ctx, rec):
     from permuta.permutils.bijections import Bijections
     from permuta.bisc import perm_properties as props
     SS = Bijections.simion_and_schmidt
+    if sub == "gens":
+        model = GenModel(tuple(case["lengths"]))
+        hist = tuple(tuple(op) for op in case["history"])
+        for i in range(0, len(hist) + 1):
+            _, viols = model.build(hist[:i])
+            if viols:
+                ctx.violation("gens", case, viols[0])
+                break
+        return
     if sub == "ss_bijection":
         n = case["n"]
         scratch = Partial()
@@ -731,6 +1102,8 @@ def replay(ctx, rec):
             check_ss_long(part, Perm, SS, x, aft, sub=sub)
         elif sub == "families":
             check_families(part, props, q, Perm, aft)
+        elif sub == "fresh":
+            check_fresh(part, Perm, props, q, aft)
         elif sub == "deep":
             check_deep(part, props, Perm, q, len(q) <= 6, aft)
         else:
